@@ -674,4 +674,40 @@ theorem lookup_of_mem_keys {α : Type} (k : String) (l : List (String × α))
       · exact absurd h.symm hk
       · exact h
 
+theorem brand_idem (d : String) (c : List String) : brand d (brand d c) = brand d c := by
+  unfold brand
+  by_cases h : c.getLast? = some d
+  · simp [h]
+  · simp [h]
+
+theorem verRun_partial (d : String) (ops : List VerOp) :
+    ∀ c, (∀ op ∈ ops, op = .store [] ∨ op = .close) →
+      verRun d (brand d c) ops = brand d c := by
+  induction ops with
+  | nil => intro c _; rfl
+  | cons op ops ih =>
+    intro c h
+    have h1 := h op List.mem_cons_self
+    have h2 : ∀ o ∈ ops, o = .store [] ∨ o = .close := fun o ho => h o (List.mem_cons_of_mem _ ho)
+    simp only [verRun]
+    rcases h1 with rfl | rfl
+    · simp only [verStep, List.isEmpty_nil, if_true, brand_idem]
+      exact ih c h2
+    · simp only [verStep, brand_idem]
+      exact ih c h2
+
+theorem accessRun_clean (data : List Tok) (convs : List (Tok → Tok)) :
+    ∀ cache, (cache = none ∨ cache = some data) →
+      accessRun .clean data cache convs = convs.map (fun c => data.map c) := by
+  induction convs with
+  | nil => intro _ _; rfl
+  | cons c cs ih =>
+    intro cache hc
+    simp only [accessRun, List.map_cons]
+    have harr : (accessStep .clean data cache c) = (some data, data.map c) := by
+      rcases hc with rfl | rfl <;> rfl
+    rw [harr]
+    simp only
+    rw [ih (some data) (Or.inr rfl)]
+
 end DclabModel.Writer
